@@ -306,6 +306,24 @@ func convertBody(t Term) Term {
 	return t
 }
 
+// callBody is convertBody for a goal met at run time (call/N, \+, findall/3, bagof/setof): the real system
+// compiles such a goal, which costs it the size of the goal *as a tree* (shared subterms are walked once per
+// occurrence), so the same is charged to the work budget here - a program that doubles a term on every
+// recursion (k([a, X | X]) :- k(X), \+ X = b) runs out of budget instead of being handed to the real engine.
+func (m *Machine) callBody(t Term) Term {
+	m.treeWork(t)
+	return convertBody(t)
+}
+
+func (m *Machine) treeWork(t Term) {
+	m.tick()
+	if c, ok := deref(t).(*Comp); ok {
+		for _, a := range c.args {
+			m.treeWork(a)
+		}
+	}
+}
+
 func countGoals(t Term) int {
 	if c, ok := isComp(t, ",", 2); ok {
 		return countGoals(c.args[0]) + countGoals(c.args[1])
@@ -409,7 +427,7 @@ func (r *run) step(f *frame) (bool, error) {
 			m.Stats.CutLocal++
 			mark := len(m.trail)
 			found := false
-			err := r.sub(convertBody(a[0]), func() bool { found = true; return false })
+			err := r.sub(m.callBody(a[0]), func() bool { found = true; return false })
 			m.undo(mark)
 			if err != nil {
 				return false, err
@@ -436,7 +454,7 @@ func (r *run) step(f *frame) (bool, error) {
 				return false, m.throwErr(mk("type_error", Atom("callable"), goal))
 			}
 			m.Stats.CutLocal++
-			push(convertBody(goal), len(r.cps), f.K)
+			push(m.callBody(goal), len(r.cps), f.K)
 			return true, nil
 		case "once/1":
 			push(mk("call", mk("->", a[0], Atom("true"))), f.B, f.K)
@@ -477,7 +495,7 @@ func (r *run) step(f *frame) (bool, error) {
 			m.Stats.CutLocal++
 			var res []Term
 			mark := len(m.trail)
-			err := r.sub(convertBody(a[1]), func() bool { res = append(res, m.copyTerm(a[0], map[*Var]Term{})); return true })
+			err := r.sub(m.callBody(a[1]), func() bool { res = append(res, m.copyTerm(a[0], map[*Var]Term{})); return true })
 			m.undo(mark)
 			if err != nil {
 				return false, err
@@ -982,7 +1000,7 @@ func (r *run) bagof(set bool, tmpl, goal, inst Term, f *frame) (bool, error) {
 	witness := mk("$w", append([]Term{Atom("w")}, free...)...)
 	var sols []Term
 	mark := len(m.trail)
-	err := r.sub(convertBody(g), func() bool {
+	err := r.sub(m.callBody(g), func() bool {
 		sols = append(sols, m.copyTerm(mk("+", witness, tmpl), map[*Var]Term{}))
 		return true
 	})
